@@ -152,7 +152,7 @@ impl Node {
             // any other cooldown than the one we saw.
             if self.active_writers.load(Relaxed) == 0 {
                 #[cfg(arc_swap_verif)]
-                verif_rt::probe(verif_rt::probes::COOLDOWN_ENDED, false);
+                verif_rt::probe(verif_rt::probes::COOLDOWN_ENDED, true);
                 let unused = (state & !NODE_STATE_MASK) | NODE_UNUSED;
                 let _ = self
                     .in_use
